@@ -95,8 +95,12 @@ func runCheck(repo, verif, prop, tier string, timeout, par int, keep bool) int {
 			timeout = 90
 		}
 	}
-	evPath := filepath.Join(verif, "evidence", prop+".json")
-	os.MkdirAll(filepath.Join(verif, "evidence", "replay"), 0o755)
+	evDir := filepath.Join(verif, "evidence")
+	if d := os.Getenv("VERIF_EVIDENCE_DIR"); d != "" {
+		evDir = d // selftest runs against scratch trees must not overwrite the evidence of the real tree
+	}
+	evPath := filepath.Join(evDir, prop+".json")
+	os.MkdirAll(filepath.Join(evDir, "replay"), 0o755)
 	os.Remove(evPath)
 	broken := func(msg string) int {
 		fmt.Printf("BROKEN property=%s %s\n", prop, msg)
@@ -111,7 +115,7 @@ func runCheck(repo, verif, prop, tier string, timeout, par int, keep bool) int {
 	report := func(rf *replayFile, suffix string) {
 		violations++
 		name := fmt.Sprintf("%s-%s.json", prop, mangle(truncate(rf.Obligation, 100)))
-		p := filepath.Join(verif, "evidence", "replay", name)
+		p := filepath.Join(evDir, "replay", name)
 		b, _ := json.MarshalIndent(rf, "", " ")
 		os.WriteFile(p, b, 0o644)
 		l := fmt.Sprintf("VIOLATION property=%s replay=%s", prop, p)
@@ -160,6 +164,9 @@ func runCheck(repo, verif, prop, tier string, timeout, par int, keep bool) int {
 		results = append(results, r)
 	}
 	outDir := filepath.Join(verif, "out", prop+"-"+tier)
+	if os.Getenv("VERIF_EVIDENCE_DIR") != "" {
+		outDir = filepath.Join(os.Getenv("VERIF_EVIDENCE_DIR"), "smt-"+prop)
+	}
 	os.RemoveAll(outDir)
 	solveAll(outDir, results, timeout, par)
 
@@ -241,6 +248,11 @@ func runCheck(repo, verif, prop, tier string, timeout, par int, keep bool) int {
 			case "sat":
 				rf := &replayFile{Property: prop, Obligation: o.Name, Kind: o.Kind, Function: r.Key, Position: o.Pos, Goal: o.GoalSrc, Verdict: "sat (counterexample)", Solver: o.Solver, SMTFile: o.File, Output: o.Output}
 				ro := w.genericReplay(r, o, scratch)
+				if !ro.Confirmed {
+					if so := w.scenarioReplay(o, scratch); so != nil {
+						ro = so
+					}
+				}
 				rf.Replay = ro
 				if ro.Confirmed {
 					rf.Confirmed = true
@@ -250,6 +262,14 @@ func runCheck(repo, verif, prop, tier string, timeout, par int, keep bool) int {
 				}
 			default:
 				rf := &replayFile{Property: prop, Obligation: o.Name, Kind: o.Kind, Function: r.Key, Position: o.Pos, Goal: o.GoalSrc, Verdict: o.Verdict + " (undecided: no solver discharged the obligation)", Solver: o.Solver, SMTFile: o.File, Output: o.Output}
+				if so := w.scenarioReplay(o, scratch); so != nil {
+					rf.Replay = so
+					if so.Confirmed {
+						rf.Confirmed = true
+						report(rf, "")
+						continue
+					}
+				}
 				report(rf, "no-failing-input-found")
 			}
 		}
